@@ -29,6 +29,9 @@ ALLOC_CALLS = {"dict", "list", "set", "tuple", "defaultdict", "Counter", "zeros"
                "min", "max", "len", "int", "float", "abs"}     # the last row: builtins returning immutable numbers
 
 
+FORMAT_CONVERSIONS = {"tocoo", "tocsr", "tocsc", "asformat", "asfptype", "asarray", "asanyarray", "ravel", "reshape", "squeeze", "view"}
+
+
 def _is_alloc(e):
     if isinstance(e, (ast.Dict, ast.List, ast.Set, ast.ListComp, ast.DictComp, ast.SetComp, ast.Constant, ast.JoinedStr, ast.Tuple)):
         return True
@@ -47,6 +50,9 @@ def _is_alloc(e):
             for kw in e.keywords:
                 if kw.arg == "copy" and isinstance(kw.value, ast.Constant) and kw.value.value is False:
                     return False
+            if name in FORMAT_CONVERSIONS:
+                # scipy's format conversions return the receiver itself when it already has that format, unless copy=True is passed
+                return any(kw.arg == "copy" and isinstance(kw.value, ast.Constant) and kw.value.value is True for kw in e.keywords)
             return True
     return False
 
